@@ -7,6 +7,7 @@ pub mod status;
 pub mod call;
 pub mod meta;
 pub mod intercept;
+pub mod routing;
 
 /// Shared event recorder so that events survive a panic or hang of the run.
 #[derive(Clone, Default)]
@@ -37,6 +38,7 @@ fn run_one(lab: &str, stim: &Value, rec: &Rec) {
         "call" => call::run(stim, rec),
         "meta" => meta::run(stim, rec),
         "intercept" => intercept::run(stim, rec),
+        "routing" => routing::run(stim, rec),
         _ => { eprintln!("unknown lab {lab}"); std::process::exit(2) }
     }
 }
